@@ -113,15 +113,21 @@ class Prop:
         for l in extra:
             star = l.rfind(b'*')
             for i in range(1, star):
-                for v in special:
+                for v in special + [l[i] | 0x80]:       # ... and the byte itself with its top bit set
                     if v != l[i]:
                         cases.append(('subst@%d' % i, l[:i] + bytes([v]) + l[i + 1:]))
+        # a character replaced by a two-byte UTF-8 sequence (the line is still text: str arguments take this path)
+        for l in extra[:10]:
+            star = l.rfind(b'*')
+            for i in range(1, star):
+                for seq in (b'\xc3\xa9', b'\xce\xa9'):
+                    cases.append(('subst2@%d' % i, l[:i] + seq + l[i + 1:]))
         lines = ['parse %s' % l.hex() for _, l in cases]
         outs = ctx.corr(lines, impl.step, 'parse')
         for (label, l), o in zip(cases, outs):
             ctx.count('case:' + label.split('@')[0].split('=')[0])
             self.check_parse(ctx, label, l, o)
-            if label.startswith('subst') and not o.startswith('ERR:') and field(o, 'valid') == '1':
+            if label.startswith('subst') and not o.startswith(('ERR:', 'READERS-DIFFER')) and field(o, 'valid') == '1':
                 ctx.fail('single-byte corruption of the body neither rejected nor flagged',
                          {'cmd': 'parse', 'line': l.hex(), 'case': label}, 'rejected or valid=0', o[:200],
                          {'kind': 'subst'})
